@@ -77,9 +77,26 @@ fn decode_file_rewinding(f: &mut File, chunk: usize) -> Value {
     }
 }
 
+fn error_kind_of(name: &str) -> std::io::ErrorKind {
+    use std::io::ErrorKind::*;
+    match name {
+        "notfound" => NotFound,
+        "interrupted" => Interrupted,
+        "wouldblock" => WouldBlock,
+        "alreadyexists" => AlreadyExists,
+        "permissiondenied" => PermissionDenied,
+        "unsupported" => Unsupported,
+        "invalidinput" => InvalidInput,
+        "unexpectedeof" => UnexpectedEof,
+        "timedout" => TimedOut,
+        _ => Other,
+    }
+}
+
 fn logging_checker(
     log: CheckLog,
     chunk: usize,
+    errkind: std::io::ErrorKind,
 ) -> impl Fn(&mut File, &mut File) -> std::io::Result<()> + Sync + Send + std::panic::RefUnwindSafe + std::panic::UnwindSafe + 'static
 {
     move |a: &mut File, b: &mut File| {
@@ -96,7 +113,7 @@ fn logging_checker(
         if same {
             Ok(())
         } else {
-            Err(std::io::Error::new(std::io::ErrorKind::Other, "mismatch"))
+            Err(std::io::Error::new(errkind, "mismatch"))
         }
     }
 }
@@ -155,7 +172,12 @@ fn build_handle(spec: &Value, ctx: &Ctx) -> Handle {
                     b.panicking_byte_equality_checker();
                 }
                 "log" => {
-                    b.consistency_checker(logging_checker(ctx.checklog.clone(), ctx.chunk));
+                    b.consistency_checker(logging_checker(ctx.checklog.clone(), ctx.chunk, std::io::ErrorKind::Other));
+                }
+                // the same checker reporting a mismatch with another kind of error ("log:notfound", "log:interrupted", ...):
+                // whatever the kind, it is the checker's verdict and must reach the caller
+                k if k.starts_with("log:") => {
+                    b.consistency_checker(logging_checker(ctx.checklog.clone(), ctx.chunk, error_kind_of(&k[4..])));
                 }
                 // a checker that was configured and then removed again: must behave as if none had ever been set
                 "cleared" => {
@@ -195,7 +217,12 @@ fn build_handle(spec: &Value, ctx: &Ctx) -> Handle {
                     b.panicking_byte_equality_checker();
                 }
                 "log" => {
-                    b.consistency_checker(logging_checker(ctx.checklog.clone(), ctx.chunk));
+                    b.consistency_checker(logging_checker(ctx.checklog.clone(), ctx.chunk, std::io::ErrorKind::Other));
+                }
+                // the same checker reporting a mismatch with another kind of error ("log:notfound", "log:interrupted", ...):
+                // whatever the kind, it is the checker's verdict and must reach the caller
+                k if k.starts_with("log:") => {
+                    b.consistency_checker(logging_checker(ctx.checklog.clone(), ctx.chunk, error_kind_of(&k[4..])));
                 }
                 _ => {}
             }
@@ -509,9 +536,12 @@ fn run_op(h: &Handle, op: &Value, ctx: &Ctx) -> Outcome {
                     move |dst, old| {
                         phase("cb");
                         if let Some(mut o) = old {
-                            let off = o.stream_position().unwrap_or(u64::MAX);
-                            let c = decode_file_rewinding(&mut o, chunk);
-                            *oldseen2.lock().unwrap() = Some(json!({"off": off, "c": c}));
+                            // (consume = false: the callbacks look at nothing; the old file is just dropped here)
+                            if consume {
+                                let off = o.stream_position().unwrap_or(u64::MAX);
+                                let c = decode_file_rewinding(&mut o, chunk);
+                                *oldseen2.lock().unwrap() = Some(json!({"off": off, "c": c}));
+                            }
                         }
                         let r = match pop.as_str() {
                             "notfound" => Err(std::io::Error::new(std::io::ErrorKind::NotFound, "populate: not found")),
